@@ -109,6 +109,22 @@ def c11(tier):
                 simulate=dict(num=600, depth=10))
     need(rep, ["complete-fog", "refused-explore", "refused-mark", "query-with-two-acceptable-neighbours",
                "nothing-to-the-right", "mixed-depth-fog"])
+    # code -> spec: generated exploration histories over all 16 nibbles
+    import random
+
+    from . import fog_driver as fd
+    from .common import import_repo, seed
+
+    mod = import_repo()
+    rng = random.Random(seed() * 71 + 9)
+    traces = [fd.gen_trace(mod, rng) for _ in range(200 if tier == "quick" else 4000)]
+    pipeline.code_to_spec(rep, "Trace_Fog", "Trace_Fog.cfg", traces, consts=("TraceConsts_Fog", fd.consts),
+                          batches=8 if tier == "quick" else 16)
+    ec = rep.cov.setdefault("trace_event_counts", {})
+    for t in traces:
+        for e in t["ev"]:
+            k = e["a"] + ("" if e["ok"] else "!refused")
+            ec[k] = ec.get(k, 0) + 1
     return rep.finish()
 
 
